@@ -23,6 +23,9 @@ for p in props:
          "technique":"contract-based deductive verification (GoVC: weakest-precondition VCs over go/ssa of the real code, discharged by z3/cvc5)"})
     else:
         m['not_applicable'].append({"property_id":id,"reason":claims.get(id,{}).get('na',"not yet claimed: contracts for the functions this property depends on are not complete (see DESIGN.md section 6)")})
+import subprocess
+m['hooks']['source_commits']=subprocess.run(['git','-C','/repo','log','--format=%h','--grep=^verif:'],capture_output=True,text=True).stdout.split()[::-1]
+m['notes']="fix: commits in /repo (genuine defects repaired, see known_findings.json): "+' '.join(subprocess.run(['git','-C','/repo','log','--format=%h','--grep=^fix:'],capture_output=True,text=True).stdout.split()[::-1])
 m['engines'][0]['serves_properties']=[c['property_id'] for c in m['checks']]
 json.dump(m,open('/verif/MANIFEST.json','w'),indent=1)
 print(len(m['checks']),'checks',len(m['not_applicable']),'n/a')
